@@ -5,18 +5,27 @@ import Mathlib.Tactic
 
 namespace CFiles
 
-/-- number of items `_collocate_matches` yields (non-skipped matches) -/
-def nYield : List Job → Nat
-  | [] => 0
-  | j :: js => (match j.out with | .res _ => 1 | _ => 0) + nYield js
-
-theorem nYield_le_length (jobs : List Job) : nYield jobs ≤ jobs.length := by
-  induction jobs with
-  | nil => simp [nYield]
-  | cons j js ih => cases h : j.out <;> simp [nYield, h] <;> omega
-
 /-- the results inside the emitted bundles, flattened -/
 def emitted (is : List Item) : List Result := ((bundlesOf is).flatten).map (·.r)
+
+/-- the non-`None` results of a job list together with the bundle tag each is cached under -/
+def producedC (b : Bundle) : List Job → List Cached
+  | [] => []
+  | j :: js =>
+    match j.out with
+    | .res (some r) => ⟨tagOf b j r, r⟩ :: producedC b js
+    | _ => producedC b js
+
+theorem producedC_map_r (b : Bundle) (jobs : List Job) : (producedC b jobs).map (·.r) = produced jobs := by
+  induction jobs with
+  | nil => rfl
+  | cons j js ih =>
+    cases j with
+    | mk p s out =>
+      cases out with
+      | skipped => simpa [producedC, produced] using ih
+      | crash => simpa [producedC, produced] using ih
+      | res ro => cases ro <;> simpa [producedC, produced] using ih
 
 @[simp] theorem bundlesOf_progress (is : List Item) : bundlesOf (.progress :: is) = bundlesOf is := rfl
 @[simp] theorem bundlesOf_crashed (is : List Item) : bundlesOf (.crashed :: is) = bundlesOf is := rfl
@@ -24,89 +33,79 @@ def emitted (is : List Item) : List Result := ((bundlesOf is).flatten).map (·.r
     bundlesOf (.result c :: is) = c :: bundlesOf is := rfl
 @[simp] theorem bundlesOf_nil : bundlesOf [] = [] := rfl
 
+/-- unfolding of one loop iteration -/
+theorem worker_cons (b : Bundle) (cached : List Cached) (tag : Option Tag) (j : Job) (rest : List Job) :
+    worker b cached tag (j :: rest) =
+      match j.out with
+      | .skipped => worker b cached tag rest
+      | .crash => [.crashed]
+      | .res none => .progress :: worker b cached tag rest
+      | .res (some r) =>
+        match b with
+        | .none => .result [⟨tagOf b j r, r⟩] :: worker b cached tag rest
+        | _ =>
+          if shouldSave tag (tagOf b j r) then
+            .result cached :: worker b [⟨tagOf b j r, r⟩] (some (tagOf b j r)) rest
+          else
+            worker b (cached ++ [⟨tagOf b j r, r⟩]) (some (tagOf b j r)) rest := by
+  cases j with
+  | mk p s out =>
+    cases out with
+    | skipped => rw [worker]
+    | crash => rw [worker]
+    | res ro =>
+      cases ro with
+      | none => rw [worker]
+      | some r => cases b <;> rw [worker]
+
 /-- bundle = None: every non-None result is put at once, on its own -/
-theorem emitted_worker_none (lk : List Job) (tag : Option Tag) (jobs : List Job)
-    (hc : ∀ j ∈ jobs, j.out ≠ .crash) (hl : nYield jobs ≤ lk.length) :
-    emitted (worker .none lk [] tag jobs) = produced jobs := by
-  induction jobs generalizing lk with
-  | nil => simp [worker, emitted, produced]
+theorem flat_worker_none (tag : Option Tag) (jobs : List Job) (hc : ∀ j ∈ jobs, j.out ≠ .crash) :
+    (bundlesOf (worker .none [] tag jobs)).flatten = producedC .none jobs := by
+  induction jobs with
+  | nil => simp [worker, producedC]
   | cons j rest ih =>
     have hc' : ∀ j ∈ rest, j.out ≠ .crash := fun x hx => hc x (List.mem_cons_of_mem _ hx)
     have hj := hc j List.mem_cons_self
-    unfold worker
+    rw [worker_cons]
     cases hout : j.out with
-    | skipped =>
-      simp only [nYield, hout] at hl
-      simp only [produced, hout]
-      exact ih lk hc' (by omega)
+    | skipped => simpa [producedC, hout] using ih hc'
     | crash => exact absurd hout hj
     | res ro =>
-      simp only [nYield, hout] at hl
-      cases lk with
-      | nil => simp at hl
-      | cons m lk' =>
-        simp only [List.length_cons] at hl
-        cases ro with
-        | none =>
-          simp only [produced, hout]
-          have := ih lk' hc' (by omega)
-          simpa [emitted] using this
-        | some r =>
-          simp only [produced, hout]
-          have := ih lk' hc' (by omega)
-          simp only [emitted, bundlesOf_result, List.flatten_cons, List.map_append, List.map_cons,
-            List.singleton_append] at this ⊢
-          rw [this]
+      cases ro with
+      | none => simpa [producedC, hout] using ih hc'
+      | some r => simp [producedC, hout, ih hc']
 
 /-- bundle = primary / daily: the bundles, concatenated, are the cached results followed by
 all later non-None results (final flush included) -/
-theorem emitted_worker_bundle (b : Bundle) (hb : b ≠ .none) (lk : List Job) (cached : List Cached)
-    (tag : Option Tag) (jobs : List Job)
-    (hc : ∀ j ∈ jobs, j.out ≠ .crash) (hl : nYield jobs ≤ lk.length) :
-    emitted (worker b lk cached tag jobs) = cached.map (·.r) ++ produced jobs := by
-  induction jobs generalizing lk cached tag with
+theorem flat_worker_bundle (b : Bundle) (hb : b ≠ .none) (cached : List Cached)
+    (tag : Option Tag) (jobs : List Job) (hc : ∀ j ∈ jobs, j.out ≠ .crash) :
+    (bundlesOf (worker b cached tag jobs)).flatten = cached ++ producedC b jobs := by
+  induction jobs generalizing cached tag with
   | nil =>
     unfold worker
-    cases cached <;> simp [emitted, produced]
+    cases cached <;> simp [producedC]
   | cons j rest ih =>
     have hc' : ∀ j ∈ rest, j.out ≠ .crash := fun x hx => hc x (List.mem_cons_of_mem _ hx)
     have hj := hc j List.mem_cons_self
-    unfold worker
+    rw [worker_cons]
     cases hout : j.out with
-    | skipped =>
-      simp only [nYield, hout] at hl
-      simp only [produced, hout]
-      exact ih lk cached tag hc' (by omega)
+    | skipped => simpa [producedC, hout] using ih cached tag hc'
     | crash => exact absurd hout hj
     | res ro =>
-      simp only [nYield, hout] at hl
-      cases lk with
-      | nil => simp at hl
-      | cons m lk' =>
-        simp only [List.length_cons] at hl
-        cases ro with
-        | none =>
-          simp only [produced, hout]
-          have := ih lk' cached tag hc' (by omega)
-          simpa [emitted] using this
-        | some r =>
-          simp only [produced, hout]
-          cases b with
-          | none => exact absurd rfl hb
-          | primary =>
-            split
-            · have := ih lk' [⟨tagOf .primary m r, r⟩] (some (tagOf .primary m r)) hc' (by omega)
-              simp only [emitted, bundlesOf_result, List.flatten_cons, List.map_append] at this ⊢
-              rw [this]; try simp
-            · have := ih lk' (cached ++ [⟨tagOf .primary m r, r⟩]) (some (tagOf .primary m r)) hc' (by omega)
-              rw [this]; try simp
-          | daily =>
-            split
-            · have := ih lk' [⟨tagOf .daily m r, r⟩] (some (tagOf .daily m r)) hc' (by omega)
-              simp only [emitted, bundlesOf_result, List.flatten_cons, List.map_append] at this ⊢
-              rw [this]; try simp
-            · have := ih lk' (cached ++ [⟨tagOf .daily m r, r⟩]) (some (tagOf .daily m r)) hc' (by omega)
-              rw [this]; try simp
+      cases ro with
+      | none => simpa [producedC, hout] using ih cached tag hc'
+      | some r =>
+        have key : (bundlesOf (if shouldSave tag (tagOf b j r) = true then
+              Item.result cached :: worker b [⟨tagOf b j r, r⟩] (some (tagOf b j r)) rest
+            else worker b (cached ++ [⟨tagOf b j r, r⟩]) (some (tagOf b j r)) rest)).flatten =
+            cached ++ ⟨tagOf b j r, r⟩ :: producedC b rest := by
+          split
+          · simp [ih _ _ hc']
+          · simp [ih _ _ hc']
+        cases b with
+        | none => exact absurd rfl hb
+        | primary => simpa [producedC, hout] using key
+        | daily => simpa [producedC, hout] using key
 
 /-! ### bundles are maximal runs of equal tag -/
 
@@ -141,11 +140,27 @@ theorem cacheInv_append {cached : List Cached} {tag : Option Tag} {t : Tag} {r :
 theorem cacheInv_single (t : Tag) (r : Result) : CacheInv [⟨t, r⟩] (some t) :=
   ⟨fun x hx => by simp only [List.mem_singleton] at hx; subst hx; rfl, fun _ => by simp⟩
 
+/-- the two continuations of the bundling branch, as one expression -/
+def bundleStep (b : Bundle) (cached : List Cached) (tag : Option Tag) (t : Tag) (r : Result)
+    (rest : List Job) : List Item :=
+  if shouldSave tag t = true then
+    Item.result cached :: worker b [⟨t, r⟩] (some t) rest
+  else worker b (cached ++ [⟨t, r⟩]) (some t) rest
+
+theorem worker_cons_some (b : Bundle) (hb : b ≠ .none) (cached : List Cached) (tag : Option Tag)
+    (j : Job) (rest : List Job) (r : Result) (hout : j.out = .res (some r)) :
+    worker b cached tag (j :: rest) = bundleStep b cached tag (tagOf b j r) r rest := by
+  rw [worker_cons, hout]
+  cases b with
+  | none => exact absurd rfl hb
+  | primary => rfl
+  | daily => rfl
+
 /-- every emitted bundle is non-empty and carries one tag (b ≠ None) -/
-theorem bundles_uniform (b : Bundle) (hb : b ≠ .none) (lk : List Job) (cached : List Cached)
+theorem bundles_uniform (b : Bundle) (hb : b ≠ .none) (cached : List Cached)
     (tag : Option Tag) (jobs : List Job) (hi : CacheInv cached tag) :
-    ∀ c ∈ bundlesOf (worker b lk cached tag jobs), c ≠ [] ∧ ∀ x ∈ c, ∀ y ∈ c, x.tag = y.tag := by
-  induction jobs generalizing lk cached tag with
+    ∀ c ∈ bundlesOf (worker b cached tag jobs), c ≠ [] ∧ ∀ x ∈ c, ∀ y ∈ c, x.tag = y.tag := by
+  induction jobs generalizing cached tag with
   | nil =>
     unfold worker
     intro c hcm
@@ -160,42 +175,32 @@ theorem bundles_uniform (b : Bundle) (hb : b ≠ .none) (lk : List Job) (cached 
       have h2 := hi.1 y (hcd ▸ hy)
       exact Option.some.inj (h1.trans h2.symm)
   | cons j rest ih =>
-    unfold worker
     cases hout : j.out with
-    | skipped => exact ih lk cached tag hi
-    | crash => simp
+    | skipped => rw [worker_cons, hout]; exact ih cached tag hi
+    | crash => rw [worker_cons, hout]; simp
     | res ro =>
-      cases lk with
-      | nil => simp
-      | cons m lk' =>
-        cases ro with
-        | none => simpa using ih lk' cached tag hi
-        | some r =>
-          have key : ∀ t : Tag, ∀ c ∈ bundlesOf (if shouldSave tag t = true then
-              Item.result cached :: worker b lk' [⟨t, r⟩] (some t) rest
-              else worker b lk' (cached ++ [⟨t, r⟩]) (some t) rest),
-              c ≠ [] ∧ ∀ x ∈ c, ∀ y ∈ c, x.tag = y.tag := by
-            intro t c hcm
-            split at hcm
-            · rename_i hs
-              obtain ⟨c0, hc0, hne⟩ := shouldSave_true hs
-              simp only [bundlesOf_result, List.mem_cons] at hcm
-              rcases hcm with rfl | hcm
-              · refine ⟨hi.2 (by rw [hc0]; simp), fun x hx y hy => ?_⟩
-                exact Option.some.inj ((hi.1 x hx).trans (hi.1 y hy).symm)
-              · exact ih lk' _ _ (cacheInv_single t r) c hcm
-            · rename_i hs
-              exact ih lk' _ _ (cacheInv_append hi hs) c hcm
-          cases b with
-          | none => exact absurd rfl hb
-          | primary => exact key _
-          | daily => exact key _
+      cases ro with
+      | none => rw [worker_cons, hout]; simpa using ih cached tag hi
+      | some r =>
+        rw [worker_cons_some b hb _ _ _ _ r hout]
+        intro c hcm
+        unfold bundleStep at hcm
+        split at hcm
+        · rename_i hs
+          obtain ⟨c0, hc0, hne⟩ := shouldSave_true hs
+          simp only [bundlesOf_result, List.mem_cons] at hcm
+          rcases hcm with rfl | hcm
+          · refine ⟨hi.2 (by rw [hc0]; simp), fun x hx y hy => ?_⟩
+            exact Option.some.inj ((hi.1 x hx).trans (hi.1 y hy).symm)
+          · exact ih _ _ (cacheInv_single _ r) c hcm
+        · rename_i hs
+          exact ih _ _ (cacheInv_append hi hs) c hcm
 
 /-- the first bundle still to be emitted carries the current tag -/
-theorem head_bundle_tag (b : Bundle) (hb : b ≠ .none) (lk : List Job) (cached : List Cached)
+theorem head_bundle_tag (b : Bundle) (hb : b ≠ .none) (cached : List Cached)
     (T : Tag) (jobs : List Job) (hi : CacheInv cached (some T)) :
-    ∀ c, (bundlesOf (worker b lk cached (some T) jobs)).head? = some c → ∀ y ∈ c, y.tag = T := by
-  induction jobs generalizing lk cached T with
+    ∀ c, (bundlesOf (worker b cached (some T) jobs)).head? = some c → ∀ y ∈ c, y.tag = T := by
+  induction jobs generalizing cached T with
   | nil =>
     unfold worker
     intro c hcm
@@ -208,199 +213,259 @@ theorem head_bundle_tag (b : Bundle) (hb : b ≠ .none) (lk : List Job) (cached 
       intro y hy
       exact Option.some.inj (hi.1 y (hcd ▸ hy))
   | cons j rest ih =>
-    unfold worker
     cases hout : j.out with
-    | skipped => exact ih lk cached T hi
-    | crash => simp
+    | skipped => rw [worker_cons, hout]; exact ih cached T hi
+    | crash => rw [worker_cons, hout]; simp
     | res ro =>
-      cases lk with
-      | nil => simp
-      | cons m lk' =>
-        cases ro with
-        | none => simpa using ih lk' cached T hi
-        | some r =>
-          have key : ∀ t : Tag, ∀ c, (bundlesOf (if shouldSave (some T) t = true then
-              Item.result cached :: worker b lk' [⟨t, r⟩] (some t) rest
-              else worker b lk' (cached ++ [⟨t, r⟩]) (some t) rest)).head? = some c →
-              ∀ y ∈ c, y.tag = T := by
-            intro t c hcm
-            split at hcm
-            · simp only [bundlesOf_result, List.head?_cons, Option.some.injEq] at hcm
-              subst hcm
-              intro y hy
-              exact Option.some.inj (hi.1 y hy)
-            · rename_i hs
-              have hT : T = t := by
-                rcases shouldSave_false hs with h0 | h0
-                · cases h0
-                · exact Option.some.inj h0
-              subst hT
-              exact ih lk' _ _ (cacheInv_append hi hs) c hcm
-          cases b with
-          | none => exact absurd rfl hb
-          | primary => exact key _
-          | daily => exact key _
+      cases ro with
+      | none => rw [worker_cons, hout]; simpa using ih cached T hi
+      | some r =>
+        rw [worker_cons_some b hb _ _ _ _ r hout]
+        intro c hcm
+        unfold bundleStep at hcm
+        split at hcm
+        · simp only [bundlesOf_result, List.head?_cons, Option.some.injEq] at hcm
+          subst hcm
+          intro y hy
+          exact Option.some.inj (hi.1 y hy)
+        · rename_i hs
+          have hT : T = tagOf b j r := by
+            rcases shouldSave_false hs with h0 | h0
+            · cases h0
+            · exact Option.some.inj h0
+          rw [← hT] at hcm hs
+          exact ih _ _ (hT ▸ cacheInv_append hi (hT ▸ hs)) c hcm
 
 /-- consecutive bundles carry different tags (so each bundle is a *maximal* run) -/
-theorem bundles_chain (b : Bundle) (hb : b ≠ .none) (lk : List Job) (cached : List Cached)
+theorem bundles_chain (b : Bundle) (hb : b ≠ .none) (cached : List Cached)
     (tag : Option Tag) (jobs : List Job) (hi : CacheInv cached tag) :
     List.IsChain (fun c d : List Cached => ∀ x ∈ c, ∀ y ∈ d, x.tag ≠ y.tag)
-      (bundlesOf (worker b lk cached tag jobs)) := by
-  induction jobs generalizing lk cached tag with
+      (bundlesOf (worker b cached tag jobs)) := by
+  induction jobs generalizing cached tag with
   | nil =>
     unfold worker
     cases cached <;> simp
   | cons j rest ih =>
-    unfold worker
     cases hout : j.out with
-    | skipped => exact ih lk cached tag hi
-    | crash => simp
+    | skipped => rw [worker_cons, hout]; exact ih cached tag hi
+    | crash => rw [worker_cons, hout]; simp
     | res ro =>
-      cases lk with
-      | nil => simp
-      | cons m lk' =>
-        cases ro with
-        | none => simpa using ih lk' cached tag hi
-        | some r =>
-          have key : ∀ t : Tag, List.IsChain (fun c d : List Cached => ∀ x ∈ c, ∀ y ∈ d, x.tag ≠ y.tag)
-              (bundlesOf (if shouldSave tag t = true then
-              Item.result cached :: worker b lk' [⟨t, r⟩] (some t) rest
-              else worker b lk' (cached ++ [⟨t, r⟩]) (some t) rest)) := by
-            intro t
-            split
-            · rename_i hs
-              obtain ⟨c0, hc0, hne⟩ := shouldSave_true hs
-              simp only [bundlesOf_result]
-              have hrest := ih lk' [⟨t, r⟩] (some t) (cacheInv_single t r)
-              have hhead := head_bundle_tag b hb lk' [⟨t, r⟩] t rest (cacheInv_single t r)
-              cases hbs : bundlesOf (worker b lk' [⟨t, r⟩] (some t) rest) with
-              | nil => simp
-              | cons d ds =>
-                rw [hbs] at hrest hhead
-                refine List.IsChain.cons_cons ?_ hrest
-                intro x hx y hy
-                have hx' := hi.1 x hx
-                rw [hc0] at hx'
-                have hy' := hhead d (by simp) y hy
-                have hxc := Option.some.inj hx'
-                rw [hy', hxc]
-                exact hne
-            · rename_i hs
-              exact ih lk' _ _ (cacheInv_append hi hs)
-          cases b with
-          | none => exact absurd rfl hb
-          | primary => exact key _
-          | daily => exact key _
+      cases ro with
+      | none => rw [worker_cons, hout]; simpa using ih cached tag hi
+      | some r =>
+        rw [worker_cons_some b hb _ _ _ _ r hout]
+        unfold bundleStep
+        split
+        · rename_i hs
+          obtain ⟨c0, hc0, hne⟩ := shouldSave_true hs
+          simp only [bundlesOf_result]
+          have hrest := ih [⟨tagOf b j r, r⟩] (some (tagOf b j r)) (cacheInv_single _ r)
+          have hhead := head_bundle_tag b hb [⟨tagOf b j r, r⟩] (tagOf b j r) rest (cacheInv_single _ r)
+          cases hbs : bundlesOf (worker b [⟨tagOf b j r, r⟩] (some (tagOf b j r)) rest) with
+          | nil => simp
+          | cons d ds =>
+            rw [hbs] at hrest hhead
+            refine List.IsChain.cons_cons ?_ hrest
+            intro x hx y hy
+            have hx' := hi.1 x hx
+            rw [hc0] at hx'
+            have hy' := hhead d (by simp) y hy
+            have hxc := Option.some.inj hx'
+            rw [hy', hxc]
+            exact hne
+        · rename_i hs
+          exact ih _ _ (cacheInv_append hi hs)
 
-/-! ### crash and lookup -/
+/-! ### crash -/
 
-/-- `matches[processed]` never raises IndexError: the lookup list is long enough -/
-theorem worker_no_crash_item (b : Bundle) (lk : List Job) (cached : List Cached) (tag : Option Tag)
-    (jobs : List Job) (hc : ∀ j ∈ jobs, j.out ≠ .crash) (hl : nYield jobs ≤ lk.length) :
-    Item.crashed ∉ worker b lk cached tag jobs := by
-  induction jobs generalizing lk cached tag with
+/-- without an exception no crash marker is put -/
+theorem worker_no_crash_item (b : Bundle) (cached : List Cached) (tag : Option Tag)
+    (jobs : List Job) (hc : ∀ j ∈ jobs, j.out ≠ .crash) :
+    Item.crashed ∉ worker b cached tag jobs := by
+  induction jobs generalizing cached tag with
   | nil => unfold worker; split <;> simp
   | cons j rest ih =>
     have hc' : ∀ j ∈ rest, j.out ≠ .crash := fun x hx => hc x (List.mem_cons_of_mem _ hx)
     have hj := hc j List.mem_cons_self
-    unfold worker
     cases hout : j.out with
-    | skipped =>
-      simp only [nYield, hout] at hl
-      exact ih lk cached tag hc' (by omega)
+    | skipped => rw [worker_cons, hout]; exact ih cached tag hc'
     | crash => exact absurd hout hj
     | res ro =>
-      simp only [nYield, hout] at hl
-      cases lk with
-      | nil => simp at hl
-      | cons m lk' =>
-        simp only [List.length_cons] at hl
-        cases ro with
-        | none => simpa using ih lk' cached tag hc' (by omega)
-        | some r =>
-          cases b with
-          | none => simpa using ih lk' cached tag hc' (by omega)
-          | primary =>
-            simp only
-            split
-            · simpa using ih lk' _ _ hc' (by omega)
-            · exact ih lk' _ _ hc' (by omega)
-          | daily =>
-            simp only
-            split
-            · simpa using ih lk' _ _ hc' (by omega)
-            · exact ih lk' _ _ hc' (by omega)
-
-end CFiles
-
-namespace CFiles
+      cases ro with
+      | none => rw [worker_cons, hout]; simpa using ih cached tag hc'
+      | some r =>
+        by_cases hb : b = .none
+        · subst hb
+          rw [worker_cons, hout]
+          simpa using ih cached tag hc'
+        · rw [worker_cons_some b hb _ _ _ _ r hout]
+          unfold bundleStep
+          split
+          · simpa using ih _ _ hc'
+          · exact ih _ _ hc'
 
 /-- bundle = None: every bundle is a single dataset -/
-theorem bundles_none_single (lk : List Job) (tag : Option Tag) (jobs : List Job) :
-    ∀ c ∈ bundlesOf (worker .none lk [] tag jobs), c.length = 1 := by
-  induction jobs generalizing lk with
+theorem bundles_none_single (tag : Option Tag) (jobs : List Job) :
+    ∀ c ∈ bundlesOf (worker .none [] tag jobs), c.length = 1 := by
+  induction jobs with
   | nil => simp [worker]
   | cons j rest ih =>
-    unfold worker
+    rw [worker_cons]
     cases hout : j.out with
-    | skipped => exact ih lk
+    | skipped => exact ih
     | crash => simp
     | res ro =>
-      cases lk with
-      | nil => simp
-      | cons m lk' =>
-        cases ro with
-        | none => simpa using ih lk'
-        | some r =>
-          intro c hc
-          simp only [bundlesOf_result, List.mem_cons] at hc
-          rcases hc with rfl | hc
-          · rfl
-          · exact ih lk' c hc
+      cases ro with
+      | none => simpa using ih
+      | some r =>
+        intro c hc
+        simp only [bundlesOf_result, List.mem_cons] at hc
+        rcases hc with rfl | hc
+        · rfl
+        · exact ih c hc
 
 /-- a crash ends the worker: it puts what it had put before, then the crash marker; the cached
 bundle is dropped and nothing of the later matches is delivered -/
-theorem worker_crash (b : Bundle) (lk : List Job) (cached : List Cached) (tag : Option Tag)
+theorem worker_crash (b : Bundle) (cached : List Cached) (tag : Option Tag)
     (pre post : List Job) (j : Job) (hj : j.out = .crash) (hc : ∀ x ∈ pre, x.out ≠ .crash) :
-    ∃ is, worker b lk cached tag (pre ++ j :: post) = is ++ [.crashed] := by
-  induction pre generalizing lk cached tag with
+    ∃ is, worker b cached tag (pre ++ j :: post) = is ++ [.crashed] := by
+  induction pre generalizing cached tag with
   | nil =>
     refine ⟨[], ?_⟩
     simp only [List.nil_append]
-    unfold worker
-    simp [hj]
+    rw [worker_cons, hj]
   | cons a pre ih =>
     have hc' : ∀ x ∈ pre, x.out ≠ .crash := fun x hx => hc x (List.mem_cons_of_mem _ hx)
     have ha := hc a List.mem_cons_self
     simp only [List.cons_append]
-    unfold worker
     cases hout : a.out with
-    | skipped => exact ih lk cached tag hc'
+    | skipped => rw [worker_cons, hout]; exact ih cached tag hc'
     | crash => exact absurd hout ha
     | res ro =>
-      cases lk with
-      | nil => exact ⟨[], rfl⟩
-      | cons m lk' =>
-        cases ro with
-        | none =>
-          obtain ⟨is, h⟩ := ih lk' cached tag hc'
-          exact ⟨.progress :: is, by (try dsimp only); rw [h]; rfl⟩
-        | some r =>
-          cases b with
-          | none =>
-            obtain ⟨is, h⟩ := ih lk' cached tag hc'
-            exact ⟨_ :: is, by (try dsimp only); rw [h]; rfl⟩
-          | primary =>
-            simp only
-            split
-            · obtain ⟨is, h⟩ := ih lk' [⟨tagOf .primary m r, r⟩] (some (tagOf .primary m r)) hc'
-              exact ⟨_ :: is, by (try dsimp only); rw [h]; rfl⟩
-            · exact ih lk' _ _ hc'
-          | daily =>
-            simp only
-            split
-            · obtain ⟨is, h⟩ := ih lk' [⟨tagOf .daily m r, r⟩] (some (tagOf .daily m r)) hc'
-              exact ⟨_ :: is, by (try dsimp only); rw [h]; rfl⟩
-            · exact ih lk' _ _ hc'
+      cases ro with
+      | none =>
+        obtain ⟨is, h⟩ := ih cached tag hc'
+        exact ⟨.progress :: is, by rw [worker_cons, hout]; simp only; rw [h]; rfl⟩
+      | some r =>
+        by_cases hb : b = .none
+        · subst hb
+          obtain ⟨is, h⟩ := ih cached tag hc'
+          exact ⟨_ :: is, by rw [worker_cons, hout]; simp only; rw [h]; rfl⟩
+        · rw [worker_cons_some b hb _ _ _ _ r hout]
+          unfold bundleStep
+          split
+          · obtain ⟨is, h⟩ := ih [⟨tagOf b a r, r⟩] (some (tagOf b a r)) hc'
+            exact ⟨_ :: is, by rw [h]; rfl⟩
+          · exact ih _ _ hc'
+
+/-! ### one bundle per tag when the tags come sorted -/
+
+/-- an integer key of a bundle tag (file index of the primary / day number) -/
+def tagKey : Tag → Int
+  | .prim p => p
+  | .day d => d
+
+theorem tagKey_injOn_same {s t : Tag} (h : tagKey s = tagKey t)
+    (hk : (∃ p q, s = .prim p ∧ t = .prim q) ∨ (∃ d e, s = .day d ∧ t = .day e)) : s = t := by
+  rcases hk with ⟨p, q, rfl, rfl⟩ | ⟨d, e, rfl, rfl⟩
+  · simp only [tagKey, Nat.cast_inj] at h; rw [h]
+  · simp only [tagKey] at h; rw [h]
+
+/-- If the tag keys of the cached-then-produced results never decrease, bundles (non-empty,
+uniform, adjacent ones different, all tags of one kind) have pairwise different tags:
+every tag occurs in exactly one bundle. -/
+theorem pairwise_of_sorted (bs : List (List Cached))
+    (hne : ∀ c ∈ bs, c ≠ [])
+    (hch : List.IsChain (fun c d : List Cached => ∀ x ∈ c, ∀ y ∈ d, x.tag ≠ y.tag) bs)
+    (hsorted : (bs.flatten.map (fun x => tagKey x.tag)).Pairwise (· ≤ ·))
+    (hkind : ∀ x ∈ bs.flatten, ∀ y ∈ bs.flatten, tagKey x.tag = tagKey y.tag → x.tag = y.tag) :
+    bs.Pairwise (fun c d => ∀ x ∈ c, ∀ y ∈ d, x.tag ≠ y.tag) := by
+  induction bs with
+  | nil => exact List.Pairwise.nil
+  | cons c rest ih =>
+    have hne' : ∀ c ∈ rest, c ≠ [] := fun x hx => hne x (List.mem_cons_of_mem _ hx)
+    have hsorted' : (rest.flatten.map (fun x => tagKey x.tag)).Pairwise (· ≤ ·) := by
+      simp only [List.flatten_cons, List.map_append, List.pairwise_append] at hsorted
+      exact hsorted.2.1
+    have hkind' : ∀ x ∈ rest.flatten, ∀ y ∈ rest.flatten, tagKey x.tag = tagKey y.tag → x.tag = y.tag :=
+      fun x hx y hy => hkind x (by simp [hx]) y (by simp [hy])
+    have hle : ∀ x ∈ c, ∀ y ∈ rest.flatten, tagKey x.tag ≤ tagKey y.tag := by
+      simp only [List.flatten_cons, List.map_append, List.pairwise_append] at hsorted
+      intro x hx y hy
+      exact hsorted.2.2 _ (List.mem_map.mpr ⟨x, hx, rfl⟩) _ (List.mem_map.mpr ⟨y, hy, rfl⟩)
+    cases rest with
+    | nil => exact List.pairwise_singleton _ _
+    | cons d ds =>
+      have hcd : ∀ x ∈ c, ∀ y ∈ d, x.tag ≠ y.tag := (List.isChain_cons_cons.mp hch).1
+      have hch' := (List.isChain_cons_cons.mp hch).2
+      refine List.Pairwise.cons ?_ (ih hne' hch' hsorted' hkind')
+      intro e he x hx y hy
+      simp only [List.mem_cons] at he
+      rcases he with rfl | he
+      · exact hcd x hx y hy
+      · -- a witness z in the non-empty neighbour d: key x < key z ≤ key y
+        obtain ⟨z, hz⟩ := List.exists_mem_of_ne_nil d (hne' d List.mem_cons_self)
+        have hzf : z ∈ (d :: ds).flatten := by simp [hz]
+        have hyf : y ∈ (d :: ds).flatten := by
+          simp only [List.flatten_cons, List.mem_append, List.mem_flatten]
+          exact Or.inr ⟨e, he, hy⟩
+        have h1 : tagKey x.tag ≤ tagKey z.tag := hle x hx z hzf
+        have h1' : tagKey x.tag ≠ tagKey z.tag := by
+          intro heq
+          exact hcd x hx z hz (hkind x (by simp [hx]) z (by simp [hz]) heq)
+        have h2 : tagKey z.tag ≤ tagKey y.tag := by
+          have hs := hsorted'
+          simp only [List.flatten_cons, List.map_append, List.pairwise_append] at hs
+          have hyds : y ∈ ds.flatten := List.mem_flatten.mpr ⟨e, he, hy⟩
+          exact hs.2.2 _ (List.mem_map.mpr ⟨z, hz, rfl⟩) _ (List.mem_map.mpr ⟨y, hyds, rfl⟩)
+        intro heq
+        rw [heq] at h1 h1'
+        omega
+
+theorem producedC_primary_spec (jobs : List Job) :
+    ∀ x ∈ producedC .primary jobs, ∃ j ∈ jobs, x.tag = .prim j.prim ∧ j.out = .res (some x.r) := by
+  induction jobs with
+  | nil => simp [producedC]
+  | cons j js ih =>
+    intro x hx
+    cases hout : j.out with
+    | skipped =>
+      simp only [producedC, hout] at hx
+      obtain ⟨j', hj', h⟩ := ih x hx; exact ⟨j', List.mem_cons_of_mem _ hj', h⟩
+    | crash =>
+      simp only [producedC, hout] at hx
+      obtain ⟨j', hj', h⟩ := ih x hx; exact ⟨j', List.mem_cons_of_mem _ hj', h⟩
+    | res ro =>
+      cases ro with
+      | none =>
+        simp only [producedC, hout] at hx
+        obtain ⟨j', hj', h⟩ := ih x hx; exact ⟨j', List.mem_cons_of_mem _ hj', h⟩
+      | some r =>
+        simp only [producedC, hout, List.mem_cons] at hx
+        rcases hx with rfl | hx
+        · exact ⟨j, List.mem_cons_self, rfl, hout⟩
+        · obtain ⟨j', hj', h⟩ := ih x hx; exact ⟨j', List.mem_cons_of_mem _ hj', h⟩
+
+theorem producedC_primary_sublist (jobs : List Job) :
+    ((producedC .primary jobs).map (fun x => tagKey x.tag)).Sublist (jobs.map (fun j => (j.prim : Int))) := by
+  induction jobs with
+  | nil => simp [producedC]
+  | cons j js ih =>
+    cases hout : j.out with
+    | skipped => simp only [producedC, hout, List.map_cons]; exact ih.cons _
+    | crash => simp only [producedC, hout, List.map_cons]; exact ih.cons _
+    | res ro =>
+      cases ro with
+      | none => simp only [producedC, hout, List.map_cons]; exact ih.cons _
+      | some r =>
+        simp only [producedC, hout, List.map_cons, tagOf, tagKey]
+        exact ih.cons₂ _
+
+theorem producedC_primary_sorted (jobs : List Job) (hs : (jobs.map (·.prim)).Pairwise (· ≤ ·)) :
+    ((producedC .primary jobs).map (fun x => tagKey x.tag)).Pairwise (· ≤ ·) := by
+  have h : (jobs.map (fun j => (j.prim : Int))).Pairwise (· ≤ ·) := by
+    rw [List.pairwise_map] at hs ⊢
+    exact hs.imp (fun h => by exact_mod_cast h)
+  exact h.sublist (producedC_primary_sublist jobs)
 
 end CFiles
